@@ -26,7 +26,8 @@ import (
 //	deadline <tag>         let the deadline of operation <tag> pass (its context was created with a timeout)
 //	reply <tags>           peer sends one message answering the requests with these tags (comma separated;
 //	                       a single tag = bare object, several = array); modifiers in Arg2:
-//	                       err (error objects), dup (send the message twice), both (result and error)
+//	                       err (error objects), dup (send the message twice), both (result and error),
+//	                       push / pushbad (not a reply: a server request, well-formed / malformed, reusing the id)
 //	raw <text>             peer sends this text (unknown ids, malformed members, server requests …)
 //	peerclose              peer closes its end
 //	close                  client.Close()
@@ -118,6 +119,10 @@ func (r *cliRun) replyText(tag, mod string) (string, bool) {
 		return "", false
 	}
 	switch {
+	case strings.Contains(mod, "pushbad"): // a malformed server request that reuses the id of an outstanding call
+		return fmt.Sprintf(`{"jsonrpc":"2.0","id":%s,"method":"srvcall","params":[1],"extra":1}`, id), true
+	case strings.Contains(mod, "push"): // a well-formed server request with a colliding id
+		return fmt.Sprintf(`{"jsonrpc":"2.0","id":%s,"method":"srvcall","params":[1]}`, id), true
 	case strings.Contains(mod, "both"):
 		return fmt.Sprintf(`{"jsonrpc":"2.0","id":%s,"result":"res-%s","error":{"code":9,"message":"e-%s"}}`, id, tag, tag), true
 	case strings.Contains(mod, "err"):
